@@ -40,22 +40,70 @@ def json_schema_extras(rng: Rng) -> tuple[dict, dict]:
     if rng.chance(1, 3):   # extension keywords on a definition that is referenced, too
         doc["definitions"] = {"Part": {"type": "object", "properties": {"v": {"type": "integer", **{kx: rng.choice(EXTRA_VALUES) for kx in rng.sample(X_KEYS, 3)}}}}}
         doc["properties"]["part"] = {"$ref": "#/definitions/Part"}
+    opts = extras_option_family(rng, used)
+    if rng.chance(1, 3):
+        opts.update({"use_annotated": True, "field_constraints": True})
+    return doc, opts
+
+
+def extras_option_family(rng: Rng, used: list[str], *, keeping_only: bool = False) -> dict:
+    """one member of the option family that decides which extension keywords of a property reach Field(...): keep all, keep the
+    listed ones (all of the document's, or a STRICT part of them: the others must be dropped), strip the x- prefix of some, the
+    mixtures — and, unless `keeping_only`, no such option at all (every extension keyword must be dropped)"""
     xs = [kx for kx in used if kx.startswith("x-")]
-    r = rng.below(5)
+    r = rng.below(6 if keeping_only else 8)
     if r == 0:
         opts: dict = {"field_include_all_keys": True}
     elif r == 1:
         opts = {"field_extra_keys": rng.shuffle(used)}
-    elif r == 2:
+    elif r == 2 and xs:
         opts = {"field_extra_keys_without_x_prefix": rng.shuffle(xs)}
-    elif r == 3:
+    elif r == 3 and xs:
         half = rng.sample(xs, max(1, len(xs) // 2))
         opts = {"field_extra_keys": rng.shuffle([kx for kx in used if kx not in half]), "field_extra_keys_without_x_prefix": half}
-    else:
+    elif r == 4 and xs:
         opts = {"field_include_all_keys": True, "field_extra_keys_without_x_prefix": rng.sample(xs, max(1, len(xs) // 2))}
-    if rng.chance(1, 3):
-        opts.update({"use_annotated": True, "field_constraints": True})
-    return doc, opts
+    elif r == 5 and len(used) > 1:
+        opts = {"field_extra_keys": rng.sample(used, max(1, len(used) // 2))}
+    elif r in (6, 7):
+        opts = {}
+    else:
+        opts = {"field_include_all_keys": True}
+    return opts
+
+
+def extension_keys_of(doc) -> list[str]:
+    """the extension keywords (x-… and the plain ones of this generator) that occur anywhere in a document, in document order"""
+    out: list[str] = []
+
+    def walk(x) -> None:
+        if isinstance(x, dict):
+            for kx, v in x.items():
+                if (kx.startswith("x-") or kx in PLAIN_EXTRA_KEYS) and kx not in out:
+                    out.append(kx)
+                walk(v)
+        elif isinstance(x, list):
+            for v in x:
+                walk(v)
+
+    walk(doc)
+    return out
+
+
+def openapi_extras(rng: Rng) -> tuple[dict, dict]:
+    """the same family as `json_schema_extras` inside an OpenAPI document (components.schemas, one or two schemas)"""
+    schemas = {}
+    for nm in rng.sample(["Invoice", "Customer", "Parcel", "Reading"], rng.range(1, 2)):
+        d, _ = json_schema_extras(rng)
+        part = d.pop("definitions", None)
+        d["properties"].pop("part", None)
+        d["required"] = [p for p in d.get("required", []) if p in d["properties"]]
+        d.pop("title", None)
+        schemas[nm] = d
+        if part:
+            schemas.setdefault("Part", part["Part"])
+    doc = {"openapi": "3.0.3", "info": {"title": "extras", "version": "1"}, "paths": {}, "components": {"schemas": schemas}}
+    return doc, extras_option_family(rng, extension_keys_of(doc))
 
 
 DISCRIMINATOR_PROPS = ["petType", "objectType", "kind", "type", "pet_type", "Pet-Kind", "$type", "@type", "itemKind", "class"]
